@@ -11,9 +11,12 @@ mod exec;
 mod props;
 mod rng;
 mod scen;
+mod scen_fault;
 mod scen_foreign;
 mod scen_hist;
 mod scen_life;
+mod scen_stream;
+mod scen_write;
 mod spec;
 mod sut;
 
@@ -65,6 +68,7 @@ fn main() {
             };
             driver::replay(Path::new(f), &props::find)
         }
+        Some("canon-digest") => scen_write::canon_digest_main(args.get(1).map_or("", String::as_str)),
         Some("list") => {
             for p in props::ALL {
                 if props::plan(p, Tier::Quick).is_some() {
